@@ -23,7 +23,9 @@ ID = "C15"
 LEVEL = "exploration"
 RULE = (
     "cases = simplified, unary-free, contemporaneous, one-root-per-tree tree sequences (msprime or built, with "
-    "polytomies), 0..3 drawn 'missing data' operations (a sample isolated over an interval, then simplify), "
+    "polytomies), 0..3 drawn 'missing data' operations (a sample isolated over an interval, then simplify), or "
+    "a 'mirror' construction (same trees twice with fresh internal nodes, once with an extra sample: identical "
+    "(k, span) tables under different T), "
     "optional non-dyadic coordinate scaling, prior distribution lognorm|gamma. non-trivial = some non-sample node "
     "has >= 2 distinct (T, k) pairs; distinct by SHA-1 of the tables"
 )
@@ -44,7 +46,7 @@ TOL_MIX = 1e-9
 
 def budget(tier):
     if tier == "quick":
-        return dict(examples=250, shards=4)
+        return dict(examples=200, shards=4)
     return dict(examples=2500, shards=16)
 
 
@@ -56,16 +58,49 @@ def strategy_(draw, tier):
     ops = [(draw(st.integers(0, 100)), draw(st.floats(0, 1)), draw(st.floats(0, 1))) for _ in range(n_missing)]
     scale = draw(st.sampled_from([1.0, 1.0, 1.0 / 3.0, 7.3, 1e-3]))
     distr = draw(st.sampled_from(["lognorm", "gamma"]))
-    return dict(ts=ts, ops=ops, scale=scale, distr=distr)
+    mode = draw(st.sampled_from(["plain", "plain", "plain", "mirror"]))
+    return dict(ts=ts, ops=ops, scale=scale, distr=distr, mode=mode)
 
 
 def strategy(tier):
     return strategy_(tier)
 
 
+def mirror(ts):
+    """[0, L): the trees of `ts` with one extra sample e hung, together with the local root, under a new
+    root (T = n + 1 samples);  [L, 2L): the same trees again on the same samples but with FRESH internal
+    nodes, e isolated (T = n).  A node and its copy then have identical (k, span) tables under different
+    T: the input for which the mixture cache of get_mixture_prior_params must key on T."""
+    L = ts.sequence_length
+    tables = ts.dump_tables()
+    tables.sequence_length = 2 * L
+    tables.sites.clear()
+    tables.mutations.clear()
+    tables.edges.clear()
+    is_s = node_is_sample(ts)
+    e = tables.nodes.add_row(flags=tskit.NODE_IS_SAMPLE, time=0.0)
+    r1 = tables.nodes.add_row(flags=0, time=float(ts.nodes_time.max()) + 1.0)
+    copy = {}
+    for u in range(ts.num_nodes):
+        copy[u] = u if is_s[u] else tables.nodes.add_row(flags=0, time=float(ts.nodes_time[u]))
+    for ed in ts.edges():
+        tables.edges.add_row(ed.left, ed.right, ed.parent, ed.child)
+        tables.edges.add_row(ed.left + L, ed.right + L, copy[ed.parent], copy[ed.child])
+    tables.edges.add_row(0, L, r1, e)
+    for tree in ts.trees():
+        tables.edges.add_row(tree.interval.left, tree.interval.right, r1, tree.root)
+    tables.sort()
+    tables.edges.squash()
+    tables.sort()
+    return tables.tree_sequence()
+
+
 def build_input(case):
     ts = case["ts"]
     applied = 0
+    if case.get("mode") == "mirror":
+        if all(t.num_roots == 1 and t.num_edges > 0 for t in ts.trees()):
+            return mirror(ts), 1
     for idx, lo, hi in case["ops"]:
         if ts.num_samples <= 2:
             break
@@ -102,7 +137,8 @@ def check(case, ctx):
     has_missing = len(set(per_tree_T)) > 1 or any(T != ts.num_samples for T in per_tree_T)
     empty_tree = any(T == 0 for T in per_tree_T)
     poly = any(tree.num_children(u) > 2 for tree in ts.trees() for u in tree.nodes())
-    ctx.label("missing" if has_missing else "complete", "polytomy" if poly else "binary",
+    ctx.label("mode=" + case.get("mode", "plain"), "missing" if has_missing else "complete",
+              "polytomy" if poly else "binary",
               f"trees<={10 ** len(str(ts.num_trees))}", "distr=" + distr)
     if empty_tree:
         ctx.label("has_tree_without_edges")
